@@ -54,6 +54,10 @@ def gen_seq(r, depth):
 
 
 def c_str(s):
+    """a Coq term of type list N; printable ASCII goes through a string literal (parsing thousands of
+    numerals is what makes coqc slow on the case file)"""
+    if all(32 <= ord(c) <= 126 for c in s):
+        return '(s2l "%s")' % s.replace('"', '""')
     return core.coq_str(s)
 
 
@@ -105,14 +109,18 @@ def size(seq):
 IMPORTS_HEAD = ("From TxV Require Import Core.Base Core.Show Model.Rx Model.RrelSyntax Model.RrelSyntaxText.\n"
                 "Open Scope string_scope.\n")
 IMPORTS_DEFS = (
+           "Fixpoint s2l (s : string) : list N := match s with EmptyString => nil | String a t => cons (Ascii.N_of_ascii a) (s2l t) end.\n"
            # printing long strings is what costs time in coqc: texts and dumps are compared through a hash
            "Fixpoint hs (s : string) (h : N) : N := match s with EmptyString => h\n"
            "  | String a t => hs t (N.modulo (h * 1000003 + Ascii.N_of_ascii a) 1099511627776) end.\n"
            "Definition rt (e : expr) : string := match parse_text U (print_src e) with\n"
            "  | Some e' => if String.eqb (show_expr e') (show_expr e) then \"=\" else show_N (hs (show_expr e') 7)\n"
            "  | None => \"None\" end.\n"
-           "Definition tr (e : expr) : string := show_N (hs (show_str (print_src e)) 7) ++ \" \" ++ rt e ++ \" \" ++ show_bool (lexable e).\n"
-           "Definition pt (s : list N) : string := match parse_text U s with Some e => show_N (hs (show_expr e) 7) | None => \"None\" end.\n"
+           "Definition tr (e : expr) : string := show_N (hs (show_str (print_src e)) 7) ++ \" \" ++ rt e ++ \" \" ++ show_bool (lexable U e).\n"
+           "Definition pt (s : list N) : string := match parse_text U s with\n"
+           "  | Some e => show_N (hs (show_expr e) 7) ++ \" \" ++ show_bool (no_trailing_bs e) ++ \" \" ++\n"
+           "      match parse_text U (print_src e) with Some e' => if String.eqb (show_expr e') (show_expr e) then \"=\" else \"x\" | None => \"x\" end\n"
+           "  | None => \"None\" end.\n"
            "Definition ptf (s : list N) : string := show_opt show_expr (parse_text U s).")
 
 
@@ -205,6 +213,14 @@ def tags_of(o):
     return [FINDING_TAG] if any(not expressible(uncanon(f)) for f in o.get("fixed", [])) else []
 
 
+def paren_depth(t):
+    d = m = 0
+    for c in t:
+        d += 1 if c == "(" else -1 if c == ")" else 0
+        m = max(m, d)
+    return m
+
+
 def mutate(r, t):
     alphabet = ".,()*~^'\"+mp: a1\\"
     k = r.weighted([("del", 3), ("ins", 4), ("swap", 1), ("ws", 2), ("dup", 1)])
@@ -267,15 +283,23 @@ def run(chk):
     mine = [p_expr(seq, fl) for seq, fl in asts]
     muts = list(ctexts)
     nm = 2000 if chk.thorough else 260
+    maxdepth = 3 if chk.thorough else 2      # Arpeggio backtracks exponentially in the nesting of failing brackets ('(((a.()b))*': 40 s)
     for i in range(nm):
         r = chk.rng.split("m%d" % i)
-        t = r.choice(mine)
+        t0 = r.choice(mine)
+        t = t0
         for _ in range(r.range(1, 3)):
-            t = mutate(r, t)
+            t2 = mutate(r, t)
+            t = t2 if paren_depth(t2) <= max(maxdepth, paren_depth(t0)) else t
         muts.append(t)
     IMPORTS = IMPORTS_HEAD + ucls_table(mine + muts) + IMPORTS_DEFS
     exprs = ["tr {| eseq := %s; eflags := %s |}" % (c_seq(seq), c_str(fl)) for seq, fl in asts] + ["pt %s" % c_str(t) for t in muts]
-    allvals, errs = core.coq_eval("C12a", IMPORTS, exprs, shard=450)
+    nproc = core.NPROC
+    core.NPROC = min(nproc, 6 if chk.thorough else 3)    # every coqc start costs seconds: few, larger shards
+    try:
+        allvals, errs = core.coq_eval("C12a", IMPORTS, exprs, shard=450)
+    finally:
+        core.NPROC = nproc
     vals, mvals = allvals[:len(asts)], allvals[len(asts):]
     disagreements, failures = [], []
     if errs:
@@ -357,8 +381,16 @@ def run(chk):
         chk.count("mut:" + t, nontrivial=o["ok"])
         acc += 1 if o["ok"] else 0
         m_ok = mv is not None and mv != "None"
-        if mv is not None and (m_ok != o["ok"] or (m_ok and mv != hs(o["dump"]))):
+        mh, ntb, back = (mv.split(" ") + [None, None])[:3] if m_ok else (None, None, None)
+        if mv is not None and (m_ok != o["ok"] or (m_ok and mh != hs(o["dump"]))):
             disagreements.append({"case": {"text": t}, "impl": o, "model": full_model(t) if len(disagreements) < 8 else mv})
+        elif m_ok:
+            # C12_parsed_roundtrip cross-checked by evaluation, and the model's round trip against the implementation's
+            if ntb == "T" and back != "=":
+                disagreements.append({"case": {"text": t}, "model": mv, "impl": "(the model contradicts C12_parsed_roundtrip: no fixed name ends in a backslash)"})
+            if (back == "=") != (o["redump"] == o["dump"]):
+                disagreements.append({"case": {"text": t}, "impl": o, "model": "parse(print(parse text)) %s parse text" % ("=" if back == "=" else "<>")})
+            chk.stat("parsed:no_trailing_bs" if ntb == "T" else "parsed:trailing_bs")
         oracle(t, o)
     chk.stat("mutated_accepted", acc)
     chk.stat("mutated_rejected", len(muts) - acc)
